@@ -89,7 +89,11 @@ def diff_rows(it):
     if not outs or outs[0] is None:
         return None
     rows = re.findall(r"\((true|false),\s*(true|false),\s*(true|false)\)", outs[0])
-    return [tuple(x == "true" for x in row) for row in rows]
+    rows = [tuple(x == "true" for x in row) for row in rows]
+    m = next(iter(it.mems.values()))
+    if m.get("set") == m.get("reset"):
+        rows = [r_ for r_ in rows if r_[1] == r_[2]]  # one atom: rows with different values cannot occur
+    return rows
 
 
 def run(tier, seed, t0):
